@@ -14,4 +14,5 @@ MODULES = [
     "contracts.special",
     "contracts.cov",
     "contracts.fmt",
+    "contracts.calculus",
 ]
